@@ -4,6 +4,7 @@ Round trips: Image.save -> imread (npz), cv2-encoded byte strings -> imread_from
 OpticalImage.write -> imread (lossless formats), correction.save -> read_correction.
 Scratch files live under /verif/.cache/run-<pid>/c18 and are removed at the end of every case.
 """
+import copy
 import datetime as _dt
 import os
 import shutil
@@ -411,8 +412,11 @@ def check_write(case):
 # 4. corrections
 # ---------------------------------------------------------------------------------------------
 
-RELOAD_KINDS = ["type", "type", "curvature", "curvature", "curvature", "drift_off", "drift_off", "drift_on", "drift_on",
+RELOAD_KINDS = ["type", "type", "type", "curvature", "curvature", "curvature", "drift_off", "drift_off", "drift_on", "drift_on",
                 "illumination", "illumination", "color", "color"]
+
+
+RESIZE_FACTORS = [1.0, 1.0, 0.5, 0.5, 2.0, 0.25]
 
 
 def gen_corr(tier):
@@ -423,10 +427,17 @@ def gen_corr(tier):
         cp = draw(C._corr(kind, spec))
         if kind == "curvature":
             # the interpolation order is a constructor keyword of its own class of cases
-            cp["order"] = draw(st.sampled_from([1, 1, 1, 1, 0, 3]))
+            cp["order"] = draw(st.sampled_from([1, 1, 1, 0, 0, 3]))
             if not cp["config"]:
                 cp["config"] = {"bulge": {"horizontal_bulge": 5e-3, "horizontal_center_offset": 0,
                                           "vertical_bulge": 0.0, "vertical_center_offset": 1}}
+            # constructor keyword resize_factor: the config describes the full-size image, the
+            # correction is set up for images resized by that factor (dyadic factors: exact scaling)
+            cp["resize"] = draw(st.sampled_from(RESIZE_FACTORS))
+            if cp["resize"] != 1.0 and "crop" in cp["config"]:
+                # corner points of the full-size image, so that the adapted ones lie in the input
+                cp["config"]["crop"]["pts_src"] = [[c / cp["resize"] for c in pt]
+                                                   for pt in cp["config"]["crop"]["pts_src"]]
         if kind == "drift_off":
             cp["with_base"] = draw(st.sampled_from([True, True, True, False]))
         if kind == "color":
@@ -437,11 +448,34 @@ def gen_corr(tier):
     return strat()
 
 
+def _build_corr(cp, spec):
+    """c10.build_corr plus the constructor keywords that only matter for persistence."""
+    if cp["kind"] == "curvature" and cp.get("resize", 1.0) != 1.0:
+        return darsia.CurvatureCorrection(config=copy.deepcopy(cp["config"]),
+                                          interpolation_order=cp.get("order", 1),
+                                          resize_factor=cp["resize"])
+    return C.build_corr(cp, spec)
+
+
+def _all_dtypes(kind):
+    """Kinds that accept every supported dtype (c10.REQ): their cases probe the reloaded correction
+    with inputs of all of them - it must be the same function on the whole input space, and integer
+    inputs round away small differences that float inputs (dyadic payload, exact comparison) show."""
+    return set(C.REQ[kind]["dtypes"]) == set(C.ALL5)
+
+
+def _n_inputs(cp):
+    return len(C.ALL5) if _all_dtypes(cp["kind"]) else 3
+
+
 def _variant(case, i):
-    """i-th test input of a case: same geometry, different content."""
+    """i-th test input of a case: same geometry, different content; where the correction accepts all
+    dtypes the input dtypes cycle through them (input 0 keeps the drawn dtype)."""
     spec = dict(case["inp"])
     cp = dict(case["corr"])
     spec["pseed"] = (spec["pseed"] + 7919 * i) % 2**16
+    if _all_dtypes(cp["kind"]):
+        spec["dtype"] = C.ALL5[(C.ALL5.index(spec["dtype"]) + i) % len(C.ALL5)]
     if cp["kind"] == "drift_on":
         cp["shift"] = [(cp["shift"][0] + 2 * i) % 6 - 3, (cp["shift"][1] - 3 * i) % 6 - 3]
     return spec, C._payload(spec, cp)
@@ -458,14 +492,22 @@ def check_corr(case):
     labels = (f"corr-{kind}", f"cls-{spec['cls']}", "series" if spec["series"] else "single",
               "used" if case["used_before_save"] else "fresh")
     if kind == "curvature":
-        labels += (f"order-{cp.get('order', 1)}",)
+        rf = cp.get("resize", 1.0)
+        t["resize_default"] = rf == 1.0
+        labels += (f"order-{cp.get('order', 1)}", f"resize-{rf}")
+        if rf != 1.0 and not case["used_before_save"] and not C._is_neutral(cp):
+            labels += ("curvature-resized-fresh",)
+    if kind == "type":
+        labels += (f"to-{cp['to']}",)
+    if _all_dtypes(kind):
+        labels += ("inputs-all-dtypes",)
     if kind == "drift_on":
         labels += (f"roi-{cp['roi']}",)
     bool_possible = spec["dtype"] == "bool"
-    n_inputs = 3
+    n_inputs = _n_inputs(cp)
     try:
         with C._guard([kind], bool_possible):
-            orig = C.build_corr(cp, spec)
+            orig = _build_corr(cp, spec)
             if case["used_before_save"]:
                 s0, a0 = _variant(case, 5)
                 C._apply(orig, C._mk_input(s0, a0), False)
@@ -487,9 +529,16 @@ def check_corr(case):
                 d = C._same_array(C._arr(got), C._arr(want))
                 if d:
                     k = kind
-                    if kind == "curvature" and cp.get("order", 1) != 1:
-                        k = "curvature:interpolation-order"  # constructor keyword, own root cause
-                    raise Violation(f"reload-output:{k}", f"input {i}: reloaded correction vs original: {d}", t)
+                    if kind == "curvature":
+                        # non-default constructor keywords of the case: root causes of their own
+                        kws = (["interpolation-order"] if cp.get("order", 1) != 1 else []) + \
+                              (["resize-factor"] if cp.get("resize", 1.0) != 1.0 else [])
+                        if kws:
+                            k = "curvature:" + "+".join(kws)
+                    what = f"input {i} ({si['dtype']})"
+                    if kind == "type":
+                        what = f"input {i} ({si['dtype']} -> {cp['to']})"
+                    raise Violation(f"reload-output:{k}", f"{what}: reloaded correction vs original: {d}", t)
                 if not isinstance(got, np.ndarray):
                     d = C._meta_diff(C._norm_meta(got.metadata()), C._norm_meta(want.metadata()))
                     if d:
@@ -524,7 +573,8 @@ _RULE = ("npz: Hypothesis draws images over the full metadata space (space_dim 1
          "reference date, names, origins, Image / ScalarImage / OpticalImage); bytes: PNG / TIFF, 8 / 16 "
          "bit, grey / (H,W,1) / RGB / RGBA; write: uint8 / uint16 OpticalImages in RGB / BGR, png / tif, "
          "single files and lists; corrections: type, curvature, drift (active / inactive), illumination, "
-         "colour with random configurations, >= 3 inputs each; non-trivial = series or 3-D or dated "
+         "colour with random configurations (curvature: interpolation order and resize_factor keywords, "
+         "saved before / after first use), >= 3 inputs each (type: inputs of all 5 dtypes); non-trivial = series or 3-D or dated "
          "image / 16 bit or colour / 16 bit, BGR or list / non-neutral configuration")
 
 _SH = {"quick": 4, "thorough": 16}
